@@ -133,8 +133,10 @@ static inline void logWeightedChecks(const std::vector<double>& v0, const std::v
   if (e2 == BADNUM && refusable) c.tag("weighted:infinite-maximum-refused(BadNumberException)");
   else if (e2 != NONE) c.fail("sumExp(v,w)|unexpected-exception|" + cls, in() + ": " + exname(e2));
   else if (!sumexpOk(r2, S)) {
-    // exp(max) alone overflows although the weighted sum is representable: a different site (the final x * exp(M)) than the choice of the shift
-    std::string cl2 = (cls == "max-has-positive-weight" && mx > LOGMAX && !S.mustBeInf && !S.mayBeInf && std::isinf(r2)) ? "representable-sum-but-exp(max)-overflows" : cls;
+        // input classes (disjoint): exp of the largest positively weighted exponent overflows on its own although the sum is representable;
+    // the overall maximum carries weight zero; both
+    bool ov = L.kind == 0 && L.M > (LD)LOGMAX && !S.mustBeInf && !S.mayBeInf, zw = (LD)mx > L.M;
+    std::string cl2 = ov && zw ? "max-has-zero-weight+exp(max)-overflows" : ov ? "representable-sum-but-exp(max)-overflows" : cls;
     c.fail("sumExp(v,w)|value|" + cl2, in() + ": got " + vf::num(r2) + " expected " + ld(S.value));
   }
   if (cst != 0 && e1 == NONE && std::isfinite(r1) && L.kind == 0 && cls == "max-has-positive-weight") {
